@@ -14,6 +14,7 @@ LEVEL = dict(
                 "under splitting/merging. Does not decide that decoded text equals the CMap's definition in general.",
     trusted_base=["rustc MIR and callee resolution", "rangemap::RangeInclusiveMap semantics (coalescing, overwrite on insert)"],
 )
+LEVEL["rule_text"] += '; the lines of a section reach put in file order (no map or set keyed by the code range, no sort or dedup in between)'
 
 
 def _member_sig(b, o, depth=6):
@@ -214,6 +215,19 @@ def run(ctx):
                 bypass.append("%s line %s" % (F.canon_of(x), x.term(r).get("ln")))
     ctx.ob(R, "every-definition-is-entered", not bypass, "every path through put that accepts the code length inserts into the interval map", pb_.where(),
            what="ToUnicodeCMap::put can return without entering the definition (%s): a later definition of a code does not replace the earlier one" % bypass)
+    # ... and every line of a section reaches put, in the order of the file: between the parsed list and the calls of put nothing
+    # regroups the lines (a map or set keyed by the code range keeps a repeated range at the position of its FIRST line, a sort or
+    # dedup moves or drops lines): "the last definition that covers a code" is decided by that order
+    fsb = F.fn("ToUnicodeCMap::from_sections")
+    regroup = []
+    for x in lib.local_scope(F, fsb):
+        for c in x.calls:
+            fu = c.full or ""
+            if re.search(r"(IndexMap|BTreeMap|HashMap|IndexSet|BTreeSet|HashSet)<\(u32, u32, u8\)", fu) or re.search(r"::(dedup|dedup_by|dedup_by_key|sort|sort_by|sort_by_key|sort_unstable|sort_unstable_by|sort_unstable_by_key|reverse|retain|rev)$", c.fn or c.name):
+                regroup.append("%s (line %d)" % ((c.fn or c.name).rsplit("::", 2)[-1], c.ln))
+    ctx.ob(R, "definitions-applied-in-file-order", not regroup, "from_sections hands every line to put in the order of the file", fsb.where(),
+           what="ToUnicodeCMap::from_sections regroups the lines of a section before they are entered (%s): a range defined again after an overlapping one keeps its first position, "
+                "so the overlapping definition in between wins although it is not the last one" % regroup[:3])
     ctx.ob(R, "last-definition-wins", len(ins) >= 1 and not other, "put inserts into the interval map (insert overwrites what it overlaps)", pb_.where(), what="put no longer inserts with overwrite semantics")
     # 4a. what is stored does not depend on where the interval starts: the last unit of a multi-unit target is stored relative to
     # code 0 (wrapping_sub of the range's first code) and read back with wrapping_add of the code; an array target is entered one
